@@ -338,3 +338,69 @@ P.sub("cbc_hmac", hmac_case, quick=160, thorough=2000, variants=VAR)(cbc_hmac)
 ctr_hmac = _hmac_mode("ctr_hmac", "sm4_ctr_sm3_hmac", "SM4_CTR_SM3_HMAC_CTX")
 ctr_hmac.__doc__ = "sm4_ctr_sm3_hmac_decrypt_init/update/finish under a generated chunking: complete single-edit neighbourhood of (iv, aad, ciphertext||mac)"
 P.sub("ctr_hmac", hmac_case, quick=160, thorough=2000, variants=VAR)(ctr_hmac)
+
+
+# ---------------------------------------------------------------------------
+# long associated data: the AAD length encodings of CCM (2 bytes below 0xFF00, FF FE + 4 bytes from there) and the 2^16 boundaries
+_LONG_AAD = [254, 255, 256, 257, 4095, 4096, 65276, 65279, 65280, 65281, 65300, 65530, 65531, 65533, 65534, 65535, 65536, 65537, 70000]
+longaad_case = st.fixed_dictionaries({"seed": st.integers(0, 1 << 32), "mode": st.sampled_from(["ccm", "ccm", "gcm", "aes_gcm"]), "aadlen": st.sampled_from(_LONG_AAD),
+                                      "n": st.integers(0, 40), "ivlen": st.integers(7, 13), "taglen": st.sampled_from([4, 8, 12, 16]),
+                                      "pos": st.lists(st.integers(0, 1 << 30), min_size=24, max_size=24)})
+
+
+@P.sub("longaad", longaad_case, quick=192, thorough=6000, variants=VAR, chunk=12)
+def longaad(case, ctx):
+    """one-shot AEADs with associated data around 2^8, 2^12 and 2^16 bytes: untouched output opens; flips of the first / last 16 AAD
+    bytes and of sampled positions, every tag and ciphertext bit, AAD shortened / extended, and the CCM length-prefix confusions
+    (AAD' = encoded length || AAD) are rejected"""
+    l = lib(ctx.variant)
+    s_, mode = case["seed"], case["mode"]
+    aad, msg = rnd("laad", s_, case["aadlen"]), rnd("lmsg", s_, case["n"])
+    if mode == "ccm":
+        key, iv, taglen = rnd("key", s_, 16), rnd("iv", s_, case["ivlen"]), case["taglen"]
+        k = _sm4key(l, key)
+        enc, decf = l.sm4_ccm_encrypt, l.sm4_ccm_decrypt
+    elif mode == "gcm":
+        key, iv, taglen = rnd("key", s_, 16), rnd("iv", s_, 12), max(12, case["taglen"])
+        k = _sm4key(l, key)
+        enc, decf = l.sm4_gcm_encrypt, l.sm4_gcm_decrypt
+    else:
+        key, iv, taglen = rnd("key", s_, 32), rnd("iv", s_, 12), max(12, case["taglen"])
+        k = obj("AES_KEY")
+        ctx.check(l.aes_set_encrypt_key(k, Buf.of(key), len(key)) == 1, "aes_set_encrypt_key", "aes_gcm/setkey")
+        enc, decf = l.aes_gcm_encrypt, l.aes_gcm_decrypt
+    out, tag = Buf(max(1, len(msg)), fill=0), Buf(taglen, fill=0)
+    r = enc(k, Buf.of(iv), len(iv), Buf.of(aad), len(aad), Buf.of(msg) if msg else Buf(1), len(msg), out, taglen, tag)
+    ctx.check(r == 1, "%s encrypt with %d bytes of AAD returned %d" % (mode, len(aad), r), "longaad/%s/encrypt" % mode)
+    ct, tg = out.raw()[:len(msg)], tag.raw()
+
+    def dec(aad_, ct_, tag_):
+        o = Buf(max(1, len(ct_)), fill=0)
+        r = decf(k, Buf.of(iv), len(iv), Buf.of(aad_), len(aad_), Buf.of(ct_) if ct_ else Buf(1), len(ct_), Buf.of(tag_), len(tag_), o)
+        return r, o.raw()[:len(ct_)]
+    E = Enum(ctx, "longaad/" + mode, case)
+    r, pt = dec(aad, ct, tg)
+    ctx.case(nontrivial=True, classes=["longaad/%s/aadlen=%d" % (mode, len(aad))], ident=[E.ih, "control"], sample=dict(case, pos=len(case["pos"])))
+    ctx.check(r == 1 and pt == msg, "%s decrypt of the untouched output with %d bytes of AAD returned %d" % (mode, len(aad), r), "longaad/%s/positive-control" % mode)
+
+    def d(what):
+        return lambda: "%s key=%s iv=%s aadlen=%d msglen=%d taglen=%d: %s" % (mode, key.hex(), iv.hex(), len(aad), len(msg), taglen, what)
+    bits = set(range(128)) | set(range(8 * len(aad) - 128, 8 * len(aad))) | {p % (8 * len(aad)) for p in case["pos"]}
+    for i in sorted(b for b in bits if 0 <= b < 8 * len(aad)):
+        v = aad[:i >> 3] + bytes([aad[i >> 3] ^ (0x80 >> (i & 7))]) + aad[(i >> 3) + 1:]
+        E.neighbour("aad-flip", i, dec(v, ct, tg)[0] == 1, d("AAD bit %d flipped" % i))
+    for i, v in flips(tg):
+        E.neighbour("tag-flip", i, dec(aad, ct, v)[0] == 1, d("tag bit %d flipped" % i))
+    for i, v in flips(ct):
+        E.neighbour("ct-flip", i, dec(aad, v, tg)[0] == 1, d("ciphertext bit %d flipped" % i))
+    for kk in (1, 2, 4, 16):
+        E.neighbour("aad-trunc", kk, dec(aad[:-kk], ct, tg)[0] == 1, d("AAD shortened by %d" % kk))
+        E.neighbour("aad-head-trunc", kk, dec(aad[kk:], ct, tg)[0] == 1, d("AAD without its first %d bytes" % kk))
+    for b in (0x00, 0xFF, 0x80):
+        E.neighbour("aad-ext", b, dec(aad + bytes([b]), ct, tg)[0] == 1, d("AAD extended by %02x" % b))
+    L = len(aad)
+    for name, pre in (("len16", (L & 0xFFFF).to_bytes(2, "big")), ("len32", L.to_bytes(4, "big")), ("fffe-len32", b"\xff\xfe" + L.to_bytes(4, "big")),
+                      ("0000-len16", b"\0\0" + (L & 0xFFFF).to_bytes(2, "big"))):
+        E.neighbour("aad-length-prefix", name, dec(pre + aad, ct, tg)[0] == 1, d("AAD' = %s || AAD" % pre.hex()))
+        if aad[:len(pre)] != pre:
+            E.neighbour("aad-length-strip", name, dec(aad[len(pre):], ct, tg)[0] == 1, d("AAD without a leading %d-byte block" % len(pre)))
